@@ -22,7 +22,10 @@ vars == <<ptype, pkw, kids, seen, fields, exts, fault>>
 
 NoFault == [kind |-> "none", idx |-> 0]
 G == Gram[ptype]
-Prefixed(k) == k \in {"ex:t", "ex:Name"}
+\* prefixed keywords: two fixed ones and, for every mandatory substatement r of the node, "ex:r" (an
+\* extension that merely shares the local name of a mandatory substatement does not stand in for it)
+ReqAll == UNION {Gram[t].req \cup Gram[t].reqModule \cup Gram[t].reqSubmodule : t \in GTypes}
+Prefixed(k) == k \in {"ex:t", "ex:Name"} \cup {"ex:" \o r : r \in ReqAll}
 Meta(k) == k \in {"Name", "Statement", "Parent", "Ext"}
 Legal == G.one \cup G.many
 TopKw == {"module", "submodule", "container", "leaf", "zz", "ex:t", "Name"}
@@ -69,7 +72,7 @@ Init == /\ ptype \in (GTypes \ {"Element"}) \cup {"Top"} /\ kids = <<>>
         /\ pkw \in (IF ptype = "Module" THEN {"module", "submodule"} ELSE IF ptype = "Top" THEN TopKw ELSE {"-"})
         /\ seen = {} /\ fields = <<>> /\ exts = <<>> /\ fault = NoFault
 Next == /\ ptype # "Top" /\ Len(kids) < MaxKids
-        /\ \E k \in Legal \cup Extra : Consume(k)
+        /\ \E k \in Legal \cup Extra \cup {"ex:" \o r : r \in Required \cup Foreign} : Consume(k)
 Spec == Init /\ [][Next]_vars
 
 \* ---- declarative: one-to-one or rejected ----------------------------------------
